@@ -175,6 +175,14 @@ pub fn run_dispatch<N: AsRef<[Link]>>(
                     train_idx_curr,
                     true,
                 )?;
+                #[cfg(feature = "verif-hooks")]
+                crate::verif_hooks::observe_dispatch(&crate::verif_hooks::DispatchView {
+                    phase: crate::verif_hooks::DispatchPhase::AfterAdvance,
+                    train_idx_moved: train_idx_curr,
+                    link_disp_auths: &link_disp_auths,
+                    links_blocked: &links_blocked,
+                    train_disps: &train_disps,
+                });
                 let train_curr = &mut train_disps[train_idx_curr.idx()];
 
                 // If the train reaches the end of its path, break
@@ -207,6 +215,14 @@ pub fn run_dispatch<N: AsRef<[Link]>>(
                         train_idx_curr,
                         false,
                     )?;
+                    #[cfg(feature = "verif-hooks")]
+                    crate::verif_hooks::observe_dispatch(&crate::verif_hooks::DispatchView {
+                        phase: crate::verif_hooks::DispatchPhase::AfterRewind,
+                        train_idx_moved: train_idx_curr,
+                        link_disp_auths: &link_disp_auths,
+                        links_blocked: &links_blocked,
+                        train_disps: &train_disps,
+                    });
                     assert!(
                         !has_deadlock,
                         "Train {:0width$} was rewound to the last known good position but there was still deadlock!",
